@@ -11,7 +11,7 @@ use crate::security::permissions_key_from_user_name;
 use crate::security::user_name_key_from_user_name;
 use async_std::net::TcpStream;
 use std::fs::File;
-use std::io::Write;
+use std::io::{Seek, SeekFrom, Write};
 use std::thread;
 
 use futures::channel::mpsc::{channel, Receiver, Sender};
@@ -618,6 +618,13 @@ pub async fn start_replication_thread(
 ) {
     let mut op_log_stream = Oplog::get_log_file_append_mode();
     let mut invalidate_stream = get_invalidate_file_write_mode();
+    if !dbs.is_oplog_valid.load(Ordering::SeqCst) {
+        // The node started with an invalid oplog and removed the flag file with it, a missing
+        // file reads as valid: keep the file in line with the flag in memory until the key map
+        // is saved again
+        invalidate_stream.seek(SeekFrom::Start(0)).unwrap();
+        invalidate_stream.write(&[0]).unwrap();
+    }
     // Loop replicating messages
     loop {
         let message_opt = replication_receiver.next().await;
